@@ -21,6 +21,19 @@ Theorem commute_if_effects_disjoint : forall E X i1 i2 vs st,
 Proof. exact (commute_under_table tbl_reads tbl_writes effects_cover_semantics). Qed.
 Print Assumptions commute_if_effects_disjoint.
 
+(* the second effect kernel (BasePtrAnalysis.get_read_location / get_write_location for STORAGE and TRANSIENT, used by
+   dead-store elimination and load elimination): an instruction whose semantics reads / writes (transient) storage -- in
+   particular every call-like instruction, through re-entry -- is never classified as not touching it *)
+Definition st_only (l : list eff) : list eff :=
+  filter (fun e => match e with STORAGE | TRANSIENT => true | _ => false end) l.
+
+Definition bp_ok (o : opc) : bool :=
+  subsetb (st_only (sem_reads o)) (gen_bp_reads (opc_name o)) && subsetb (st_only (sem_writes o)) (gen_bp_writes (opc_name o)).
+
+Theorem baseptr_cover_semantics : forall o, is_simple o = true -> bp_ok o = true.
+Proof. intros o S. destruct o; try discriminate S; vm_compute; reflexivity. Qed.
+Print Assumptions baseptr_cover_semantics.
+
 Theorem vrun_is_deterministic : forall n m E X f st r1 r2,
   vrun n E X f st = r1 -> vrun m E X f st = r2 -> terminated r1 -> terminated r2 -> r1 = r2.
 Proof. exact vrun_deterministic. Qed.
